@@ -29,6 +29,9 @@ class Model:
         self.retained = []  # replay: (t, v)
 
     def deliver(self, oid, kind, value, optional=False):
+        self._log(oid, kind, value, optional)
+
+    def _log(self, oid, kind, value, optional=False):
         self.logs.setdefault(oid, []).append((kind, value, optional))
         k = self.counts.get(oid, 0)
         self.counts[oid] = k + 1
@@ -195,6 +198,63 @@ class SeqModel(Model):
             self.gone = saved
 
 
+class ReplayModel(SeqModel):
+    """ReplaySubject hands every notification to a per-subscriber FIFO that is emptied one item per scheduler pass
+    (round-robin over the subscribers with pending items).  The statement fixes the order seen by each subscriber (call
+    order, nothing lost, duplicated or reordered); the FIFOs matter once a callback feeds the subject again: the fed-back
+    value is queued behind what that subscriber still has pending instead of being delivered nested."""
+
+    def __init__(self, *a):
+        super().__init__(*a)
+        self.queues = {}
+        self.acquired = set()
+        self.runq = []
+        self.dead = set()
+        self.touched = []
+        self.depth = 0
+        self.draining = False
+
+    def deliver(self, oid, kind, value, optional=False):
+        self.queues.setdefault(oid, []).append((kind, value))
+        self.touched.append(oid)
+
+    def apply(self, op, reentrant_from=None):
+        self.depth += 1
+        mark = len(self.touched)
+        try:
+            r = super().apply(op, reentrant_from)
+        finally:
+            self.depth -= 1
+        if op[0] == "unsub":
+            self.dead.add(op[1])
+            self.queues[op[1]] = []
+        for oid in self.touched[mark:]:
+            if oid not in self.acquired and oid not in self.dead and self.queues.get(oid):
+                self.acquired.add(oid)
+                self.runq.append(oid)
+        del self.touched[mark:]
+        if self.depth == 0 and not self.draining:
+            self.draining = True
+            try:
+                self.drain()
+            finally:
+                self.draining = False
+        return r
+
+    def drain(self):
+        while self.runq:
+            oid = self.runq.pop(0)
+            q = self.queues.get(oid)
+            if oid in self.dead or not q:
+                self.acquired.discard(oid)
+                continue
+            kind, value = q.pop(0)
+            if kind in "CE":
+                self.dead.add(oid)  # the subscriber is detached by its terminal notification
+            self._log(oid, kind, value)
+            self.runq.append(oid)
+
+
 # ------------------------------------------------------------------ real execution
 
 class Obs:
@@ -302,7 +362,12 @@ def gen_history(rng, kind, falsy_p=0.4, max_ops=12):
             has_err = True if not disposed else rng.random() < 0.5
             ops.append(["sub", next_oid, has_err])
             subscribed.append(next_oid)
-            if rng.random() < 0.2:  # scripted re-entrant reaction of this observer
+            if kind == "replay" and rng.random() < 0.12:
+                # the observer feeds the subject from inside its k-th notification (replay only: its per-subscriber FIFOs
+                # give such a call a defined place in every subscriber's order)
+                fb = rng.choice([["next", vt.gen_value(rng, falsy_p)], ["next", vt.gen_value(rng, falsy_p)], ["completed"], ["error", "x"]])
+                scripts[str(next_oid)] = {"k": rng.randrange(0, 4), "do": fb}
+            elif rng.random() < 0.2:  # scripted re-entrant reaction of this observer
                 if rng.random() < 0.5:
                     scripts[str(next_oid)] = {"k": rng.randrange(0, 3), "do": ["unsub", rng.choice(subscribed)]}
                 else:
@@ -327,6 +392,8 @@ def gen_history(rng, kind, falsy_p=0.4, max_ops=12):
         for i in range(len(ops) - 1, 0, -1):
             if rng.random() < 0.3:
                 ops.insert(i, ["advance", rng.choice([5, 10, 10, 20, 30])])
+    if disposed:  # a feed-back into a disposed subject raises inside the subscriber's callback: not part of this model
+        scripts = {k: v for k, v in scripts.items() if v["do"][0] in ("sub", "unsub")}
     return {"kind": kind, "cfg": cfg, "ops": ops, "scripts": scripts}
 
 
@@ -358,7 +425,7 @@ def execute(sc):
     out = Outcome()
     kind = sc["kind"]
     h = History(kind, sc["cfg"], sc["scripts"]).run(sc["ops"])
-    m = SeqModel(kind, sc["cfg"], sc["scripts"])
+    m = (ReplayModel if kind == "replay" else SeqModel)(kind, sc["cfg"], sc["scripts"])
     want_raised = [m.apply(op) for op in sc["ops"]]
     out.digest = (kind, repr(sc["cfg"]), tuple(op[0] for op in sc["ops"]), tuple(len(o.log) for o in h.obs.values()))
     out.sim_time = float(h.s.clock)
@@ -366,6 +433,8 @@ def execute(sc):
     names = [op[0] for op in sc["ops"]]
     if sc["scripts"]:
         out.probes["reentrant_script"] += 1
+    if any(v["do"][0] in ("next", "completed", "error") for v in sc["scripts"].values()):
+        out.probes["feedback_script"] += 1
     if "dispose" in names:
         out.probes["disposed"] += 1
     if any(x for x in want_raised):
